@@ -20,7 +20,9 @@ TECHNIQUE = ('generated two-transaction schedules on a mini-ZODB: a Hypothesis-g
 RULE = ('a case is (configuration, base fill, thinning, transaction A, transaction B, commit order).  '
         'Non-trivial: both transactions changed something and conflict resolution or a read-dependency '
         'check actually ran (the second committer had a stale object).  Distinct = distinct case JSON.')
-ASSUMPTIONS = ['vlib/minizodb.py models ZODB optimistic concurrency: per-object serial check, '
+ASSUMPTIONS = ['a third of the generated transactions (and one side of every enumerated duel) run "cold": the '
+               'connection\'s cache is swept before every call, so writes descend through ghosts',
+               'vlib/minizodb.py models ZODB optimistic concurrency: per-object serial check, '
                'tryToResolveConflict with shared reference stubs, readCurrent verification at commit',
                'two transactions, serial commits; the harness owns the schedule (no threads)',
                'transactions use non-raising operations (set, pop with default, setdefault, update, clear, add, discard)']
@@ -69,7 +71,7 @@ def _duels(fam, tier):
                             for a_first in (True, False):
                                 yield {'cfg': {'fam': fam, 'kind': kind, 'impl': impl, 'ktype': 'int', 'sizes': sizes},
                                        'base': base, 'basev': 0, 'thin': [], 'ta': mk(ta, i), 'tb': mk(tb, i),
-                                       'a_first': a_first}
+                                       'a_first': a_first, 'cold_a': a_first, 'cold_b': not a_first}
 
 
 def _cases(shard):
@@ -131,7 +133,8 @@ def _cases(shard):
             tb = draw(st.sampled_from([[['del_leaf_first', i]], [['del_leaf_first', i], ['ins_after_first', i, v]],
                                        [['empty_leaf', i]], [['del_leaf_first', i], ['del_leaf_last', i]]]))
         return {'cfg': cfg, 'base': base, 'basev': draw(V), 'thin': thin, 'ta': ta, 'tb': tb,
-                'a_first': draw(st.booleans())}
+                'a_first': draw(st.booleans()), 'cold_a': draw(st.integers(0, 2)) == 0,
+                'cold_b': draw(st.integers(0, 2)) == 0}
 
     return case()
 
@@ -161,6 +164,7 @@ class Side:
         self.is_tree = F.is_tree(self.kind)
         self.dom = dom
         self.concrete = []      # (name, key, value) as executed
+        self.cold = False       # sweep the connection's cache right before every call (the call starts on ghosts)
         self.wrote = False
         self.log_violation = None
         self.classes = set()
@@ -180,6 +184,9 @@ class Side:
         if self.is_tree and name in ('set', 'del', 'setdefault'):
             nodes = walker.descent_path(t, k)
             path = [n for n in nodes if n._p_oid is not None and n._p_serial != Z.Z64 and not n._p_changed]
+        if self.cold:
+            conn.minimize()         # unchanged nodes become ghosts; the call has to load what it touches
+            self.classes.add('cold_call')
         mark = len(conn.log)
         before = dict(m)
         if name == 'set':
@@ -396,6 +403,8 @@ def run_case(case, ctx):
         ca, cb = Z.Connection(sto), Z.Connection(sto)
         A = Side('A', ca, ca.get(oid), model, cfg, dom)
         B = Side('B', cb, cb.get(oid), model, cfg, dom)
+        A.cold = bool(case.get('cold_a'))
+        B.cold = bool(case.get('cold_b'))
         A.run(case['ta'])
         B.run(case['tb'])
         sig = {'impl': impl, 'kind': kind}
